@@ -42,6 +42,7 @@ impl Rep {
 pub fn run(obligation: &str) -> i32 {
     let mut rep = Rep::new();
     std::panic::set_hook(Box::new(|_| {}));   // panics of the code under contract are reported as outcomes, not printed
+    if obligation.starts_with("C14.format_enum_members") || obligation.starts_with("C05.format_enum_members") { gen_enum_members(&mut rep); return rep.finish("GEN_enum_members"); }
     if ["C05.generate_", "C03.generate_"].iter().any(|p| obligation.starts_with(p)) { gen_blocks(&mut rep); return rep.finish("GEN_blocks"); }
     if ["C03.format_tag", "C06.width_to_tokens", "C04.format_range_annotations", "lemma.GEN_emission"].iter().any(|p| obligation.starts_with(p)) { gen_emission(&mut rep); return rep.finish("GEN_emission"); }
     if obligation.starts_with("C03.") { c03_apply_tagenv(&mut rep); return rep.finish("C03_apply_tagenv"); }
@@ -123,6 +124,34 @@ fn gen_emission(rep: &mut Rep) {
             rep.check("C04.format_range_annotations.prefix_both_ends_and_extensible_exactly_as_folded", nows(text) == want, d);
         }
     } }
+}
+
+/// Native replay of unit GEN_enum_members: Rasn::format_enum_members on the real crate; expected text built from the enumerals
+/// (identifier through the real to_rust_enum_identifier, which the unit leaves uninterpreted), compared white-space-free.
+fn gen_enum_members(rep: &mut Rep) {
+    use rasn_compiler::verif_hooks::{hook_enum_identifier, hook_format_enum_members};
+    let nows = |s: &str| s.chars().filter(|c| !c.is_whitespace()).collect::<String>();
+    let names = ["alpha", "with-hyphen", "type", "b2", "self", "in-out", "x"];
+    let numbers: [i128; 7] = [0, 1, -1, 5, i64::MAX as i128 + 1, i128::MIN, 3];
+    let mut r = Lcg(14);
+    for case in 0..4000usize {
+        let n = 1 + case % 5;
+        let members: Vec<Enumeral> = (0..n).map(|i| Enumeral { name: if case % 7 == 0 { format!("{}{i}", names[r.next(names.len())]) } else { names[(case / 3 + i) % names.len()].to_string() }, description: None,
+            index: if case % 2 == 0 { numbers[r.next(numbers.len())] } else { (n - i) as i128 * 2 } }).collect();
+        let marker = match case % 4 { 0 => None, _ => Some(r.next(n + 1)) };
+        let e = Enumerated { members, extensible: marker, constraints: vec![] };
+        let got = hook_format_enum_members(&e);
+        let want: String = e.members.iter().enumerate().map(|(i, m)| {
+            let id = hook_enum_identifier(&m.name);
+            let mut ann: Vec<String> = vec![];
+            if marker.map_or(false, |k| i >= k) { ann.push("extension_addition".into()); }
+            if id != m.name { ann.push(format!("identifier=\"{}\"", m.name)); }
+            format!("{}{id}={},", if ann.is_empty() { String::new() } else { format!("#[rasn({})]", ann.join(",")) }, m.index)
+        }).collect();
+        let d = || format!("enumerals=[{}] first_addition_index={marker:?} -> {}", e.members.iter().map(|m| format!("{}({})", m.name, m.index)).collect::<Vec<_>>().join(", "), match &got { Ok(t) => nows(t), Err(x) => format!("ERR {x}") });
+        rep.check("C14.format_enum_members.fails_only_when_joining_annotations_fails", got.is_ok(), d);
+        if let Ok(t) = &got { rep.check("C14.format_enum_members.one_variant_per_enumeral_in_order_with_its_own_number_and_annotations", nows(t) == want, d); }
+    }
 }
 
 /// Native replay of unit GEN_blocks: the statement blocks of generate_enumerated / generate_choice / generate_sequence_or_set are
